@@ -22,11 +22,11 @@
 EXTENDS PprofRules, Json
 Trace == ndJsonDeserialize("trace.ndjson")
 
-VARIABLES l, bad, phase, srcs, bases, rules, pending, prof, opts
-vars == <<l, bad, phase, srcs, bases, rules, pending, prof, opts>>
+VARIABLES l, bad, phase, srcs, bases, diff, rules, pending, prof, opts
+vars == <<l, bad, phase, srcs, bases, diff, rules, pending, prof, opts>>
 
 ToSetOf(seq) == {seq[i] : i \in DOMAIN seq}
-Init == l = 1 /\ bad = {} /\ phase = "none" /\ srcs = <<>> /\ bases = <<>> /\ rules = [drop |-> {}, keep |-> {}] /\ pending = {} /\ prof = NoProf /\ opts = NoOpts
+Init == l = 1 /\ bad = {} /\ phase = "none" /\ srcs = <<>> /\ bases = <<>> /\ diff = FALSE /\ rules = [drop |-> {}, keep |-> {}] /\ pending = {} /\ prof = NoProf /\ opts = NoOpts
 
 AnyOk == (\E i \in DOMAIN srcs : srcs[i].ok) /\ (bases = <<>> \/ \E i \in DOMAIN bases : bases[i].ok)   \* a run with -base needs one of them as well
 \* arguments of a report command override the stored focus / ignore for that command only
@@ -40,7 +40,7 @@ Checks(e) ==
                             once_per_source |-> e.src \in pending ]
     [] e.ev = "sym"    -> [ after_all_fetches |-> phase = "fetch" /\ pending = {},
                             something_fetched |-> AnyOk,
-                            merged_is_bag_sum |-> SameBag(BagOfSamples(e.samples), CombinedOf(srcs, bases)) ]
+                            merged_is_bag_sum |-> SameBag(BagOfSamples(e.samples), CombinedOf(srcs, bases, diff)) ]
     [] e.ev = "assign" -> [ in_session |-> phase = "session" ]
     [] e.ev = "report" -> LET o == Eff(opts, e) IN
                           [ in_session |-> phase = "session",
@@ -68,22 +68,22 @@ Step ==
   /\ LET e == Trace[l]  fl == Failed(e) IN
        /\ bad' = IF fl = {} THEN bad ELSE bad \cup {l}
        /\ (IF fl = {} THEN TRUE ELSE PrintT(<<"VERIF-WHY", l, fl>>))
-       /\ CASE e.ev = "config" -> /\ phase' = "fetch" /\ srcs' = e.srcs /\ bases' = e.bases
+       /\ CASE e.ev = "config" -> /\ phase' = "fetch" /\ srcs' = e.srcs /\ bases' = e.bases /\ diff' = e.diff
                                   /\ rules' = [drop |-> ToSetOf(e.drop), keep |-> ToSetOf(e.keep)]
                                   /\ pending' = {e.srcs[i].name : i \in DOMAIN e.srcs} \cup {e.bases[i].name : i \in DOMAIN e.bases}
                                   /\ prof' = NoProf /\ opts' = NoOpts
-            [] e.ev = "fetch"  -> pending' = pending \ {e.src} /\ UNCHANGED <<phase, srcs, bases, rules, prof, opts>>
+            [] e.ev = "fetch"  -> pending' = pending \ {e.src} /\ UNCHANGED <<phase, srcs, bases, diff, rules, prof, opts>>
             \* symbolize, then (silently) the profile's own frame-dropping rules: the session works on the pruned profile
-            [] e.ev = "sym"    -> /\ phase' = "session" /\ prof' = Prof(CombinedOf(srcs, bases), rules.drop, rules.keep) /\ pending' = {}
-                                  /\ UNCHANGED <<srcs, bases, rules, opts>>
-            [] e.ev = "assign" -> opts' = ApplyAssign(opts, e) /\ UNCHANGED <<phase, srcs, bases, rules, pending, prof>>
-            [] e.ev \in {"report", "noop"} -> UNCHANGED <<phase, srcs, bases, rules, pending, prof, opts>>   \* a report, a rejected or an ignored line change nothing
-            [] e.ev = "error"  -> phase' = "error" /\ UNCHANGED <<srcs, bases, rules, pending, prof, opts>>
-            [] e.ev = "end"    -> phase' = "done" /\ UNCHANGED <<srcs, bases, rules, pending, prof, opts>>
-            [] OTHER           -> UNCHANGED <<phase, srcs, bases, rules, pending, prof, opts>>
+            [] e.ev = "sym"    -> /\ phase' = "session" /\ prof' = Prof(CombinedOf(srcs, bases, diff), rules.drop, rules.keep) /\ pending' = {}
+                                  /\ UNCHANGED <<srcs, bases, diff, rules, opts>>
+            [] e.ev = "assign" -> opts' = ApplyAssign(opts, e) /\ UNCHANGED <<phase, srcs, bases, diff, rules, pending, prof>>
+            [] e.ev \in {"report", "noop"} -> UNCHANGED <<phase, srcs, bases, diff, rules, pending, prof, opts>>   \* a report, a rejected or an ignored line change nothing
+            [] e.ev = "error"  -> phase' = "error" /\ UNCHANGED <<srcs, bases, diff, rules, pending, prof, opts>>
+            [] e.ev = "end"    -> phase' = "done" /\ UNCHANGED <<srcs, bases, diff, rules, pending, prof, opts>>
+            [] OTHER           -> UNCHANGED <<phase, srcs, bases, diff, rules, pending, prof, opts>>
 Report == /\ l = Len(Trace) + 1
           /\ PrintT(<<"VERIF-CONSUMED", l - 1>>) /\ PrintT(<<"VERIF-REJECTED", bad>>)
-          /\ l' = l + 1 /\ UNCHANGED <<bad, phase, srcs, bases, rules, pending, prof, opts>>
+          /\ l' = l + 1 /\ UNCHANGED <<bad, phase, srcs, bases, diff, rules, pending, prof, opts>>
 Next == Step \/ Report
 Spec == Init /\ [][Next]_vars
 =============================================================================
